@@ -295,13 +295,13 @@ Example spec_formals_covered :
 Proof. vm_compute. reflexivity. Qed.
 
 (* a literal of a foreign datatype (not in the XML Schema namespace) whose prefix the scope binds *)
-Theorem spec_xml_foreign : forall ft scope fl a lex d, is_qname_attr a = false -> intl_string d = false ->
+Theorem spec_xml_foreign : forall ft scope fl a lex d, is_qname_attr a = false ->
   ns_prefix (qn_ns d) <> "" -> contains_char colon (ns_prefix (qn_ns d)) = false ->
   lookup (ns_prefix (qn_ns d)) scope = Some (ns_uri (qn_ns d)) ->
   String.eqb (ns_uri (qn_ns d)) XmlSpec.xsd_ns = false ->
   spec_xml_value ft scope fl a (VLit lex (Some d) None) = Some (content_value (VLit lex (Some d) None)).
 Proof.
-  intros ft scope fl a lex d Q NI NE C B NX. unfold spec_xml_value, xml_emit. norm_always. cbn [prov_str]. rewrite Q, NI.
+  intros ft scope fl a lex d Q NE C B NX. unfold spec_xml_value, xml_emit. norm_always. cbn [prov_str]. rewrite Q, (andb_false_r (intl_string d)).
   assert (E : qn_str d = ns_prefix (qn_ns d) ++ String colon (qn_local d)).
   { unfold qn_str. destruct (ns_prefix (qn_ns d)); [contradiction | reflexivity]. }
   cbn [andb negb]. rewrite !andb_false_r. cbn [andb].
